@@ -9,6 +9,9 @@ the oracle uses.  Oracle (implementation only, cache disabled, freshly built gra
      (o2: never-mentioned keys added, other dictionaries of the pool); then the outcomes agree too;
      fingerprint differs when the value under a reported key is changed;
  (4) fingerprint bytes are identical in fresh processes started with different PYTHONHASHSEED.
+Scenario streams: the corpus of repaired defects, random graphs (gen.Gen), a directed family of Maps whose
+mapped expression branches on the mapped key (BranchMapGen: correspondence + oracle), and dataset classes
+(ClassGen / ClassOracle: oracle only - the Coq core model has no dataset classes).
 Failures inside the zone of a recorded finding (model ghost `dirty` = Model.EvalRun.clean_at is
 false for that expression and dictionary, and the model agrees with the implementation) are tagged.
 """
@@ -21,6 +24,7 @@ import coreprop as cp
 import core
 import gen
 import lib
+from core import S, lit
 from witnesses import WITNESSES, corpus_for
 
 PID = "C03"
@@ -124,13 +128,17 @@ class Oracle:
         self.restrictions = []   # (o, keys, restricted) for the Base.restrict correspondence
         self.fp_cases = []       # (idx, o, hex) for the hash-seed run
 
+    def fresh(self, idx, o, method, raw=False):
+        return cp.fresh_eval(self.scn, idx, o, method, raw=raw)
+
     def fingerprint(self, idx, o):
         import labrea.cache
         _, objs, _, _ = core.run_impl(dict(self.scn, ops=[]), want_objects=True)
         with labrea.cache.disabled():
             return objs[idx].fingerprint(core.py_json(o))
 
-    def run(self, rng, max_pairs=4):
+    def run(self, rng, max_pairs=4, first=()):
+        """first: (idx, dictionary) pairs of the history that are examined before the shuffled rest"""
         scn = self.scn
         seen = []
         for op in scn["ops"]:
@@ -138,17 +146,18 @@ class Oracle:
             if p not in seen:
                 seen.append(p)
         rng.shuffle(seen)
+        seen = [p for p in first if p in seen] + [p for p in seen if p not in first]
         pool = []
         for op in scn["ops"]:
             if op[4] not in pool:
                 pool.append(op[4])
         for idx, o in seen[:max_pairs]:
-            kl = cp.fresh_eval(scn, idx, o, "keys")
+            kl = self.fresh(idx, o, "keys")
             K = parse_keys(kl)
             if K is None:
                 self.checks["keys_failed"] += 1
                 continue
-            ev, ev_raw = cp.fresh_eval(scn, idx, o, "evaluate", raw=True)
+            ev, ev_raw = self.fresh(idx, o, "evaluate", raw=True)
             # (1) present-only
             self.checks["present"] += 1
             missing = [core.key_text(k) for k in K if lookup(o, k)[0] != "found"]
@@ -157,12 +166,12 @@ class Oracle:
             # (2) restriction
             r = restrict(o, K)
             self.restrictions.append((o, K, r))
-            ev2, ev2_raw = cp.fresh_eval(scn, idx, r, "evaluate", raw=True)
+            ev2, ev2_raw = self.fresh(idx, r, "evaluate", raw=True)
             self.checks["restrict_eval"] += 1
             if not cp.same_outcome(ev, ev_raw, ev2, ev2_raw):
                 self.fails.append(dict(kind="evaluation on the restricted dictionary differs", idx=idx, o=o, restricted=r,
                                        keys=kl, full=cp.outcome(ev), on_restricted=cp.outcome(ev2)))
-            kl2 = cp.fresh_eval(scn, idx, r, "keys")
+            kl2 = self.fresh(idx, r, "keys")
             self.checks["restrict_keys"] += 1
             if cp.split(kl2)[0] != cp.split(kl)[0]:
                 self.fails.append(dict(kind="keys() on the restricted dictionary differs", idx=idx, o=o, restricted=r,
@@ -179,7 +188,7 @@ class Oracle:
             fresh = [] if has_all else [{**o, FRESH[0]: 1}, {FRESH[1]: core.lit("x"), **o}]
             others = fresh + [p for p in pool if p != o]
             for o2 in others:
-                K2 = parse_keys(cp.fresh_eval(scn, idx, o2, "keys"))
+                K2 = parse_keys(self.fresh(idx, o2, "keys"))
                 if K2 is None or set(K2) != set(K):
                     if FRESH[0] in o2 or FRESH[1] in o2:
                         self.fails.append(dict(kind="adding a never-mentioned key changes keys()", idx=idx, o=o, o2=o2))
@@ -191,7 +200,7 @@ class Oracle:
                 if f2 != f0:
                     self.fails.append(dict(kind="fingerprints differ although the reported keys and their values agree",
                                            idx=idx, o=o, o2=o2, keys=kl))
-                e2, e2_raw = cp.fresh_eval(scn, idx, o2, "evaluate", raw=True)
+                e2, e2_raw = self.fresh(idx, o2, "evaluate", raw=True)
                 self.checks["same_keys_same_outcome"] += 1
                 if not cp.same_outcome(ev, ev_raw, e2, e2_raw):
                     self.fails.append(dict(kind="same reported keys and values, different outcome", idx=idx, o=o, o2=o2,
@@ -233,15 +242,13 @@ CHILD = r"""
 import sys, json
 sys.path.insert(0, %(harness)r)
 import core, coreprop as cp
-import labrea.cache
+from props import c03
 cases = json.load(open(%(path)r))
 out = []
 for scn_repr, idx, o_repr in cases:
     scn = cp.load_scn(scn_repr); o = cp.load_scn(o_repr)
-    _, objs, _, _ = core.run_impl(dict(scn, ops=[]), want_objects=True)
     try:
-        with labrea.cache.disabled():
-            out.append(objs[idx].fingerprint(core.py_json(o)).hex())
+        out.append(c03.oracle_for(scn).fingerprint(idx, o).hex())
     except Exception as e:
         out.append("ERR:" + type(e).__name__)
 print(json.dumps(out))
@@ -283,6 +290,290 @@ def generate(ctx, n):
     return scns
 
 
+# ---- directed family: a Map whose mapped expression branches on the mapped key -------------------
+#
+# Map(e, {k: values}) evaluates e once per element with k pre-set.  When e chooses a branch from k
+# (switch / bind / case-when / overloaded dataset dispatching on Option(k), or Option(k) itself over
+# templated values), different elements read different option keys: keys() must be the union over ALL
+# elements.  The dictionaries are single-key neighbours (change, delete) of a base dictionary that
+# holds every key read by some branch, so that restriction and perturbation reach each branch key.
+
+class BranchMapGen(gen.Gen):
+    MAPPED = [gen.K(10), gen.K(gen.SEC, gen.SX)]
+    BRANCH = [gen.K(11), gen.K(12), gen.K(gen.SEC, gen.SY), gen.K(*gen.DEEP)]
+    VALS = [1, 2, lit("a"), lit("b"), None]
+
+    def branch(self, bk, k):
+        """one branch reading the option key bk (sometimes the mapped key too, sometimes nothing)"""
+        rng = self.rng
+        r = rng.random()
+        if r < 0.40:
+            return ("option", bk, None, None)
+        if r < 0.52:
+            return ("option", bk, ("value", ("j", gen.rand_scalar(rng))), None)
+        if r < 0.70:
+            args = [("option", bk, None, None)]
+            if rng.random() < 0.5:
+                args.append(("option", k, None, None))
+            return ("call", self.newf(("tag",)), args)
+        if r < 0.80:
+            return ("template", (("lit", "p"), ("ref", bk)), [])
+        if r < 0.90:
+            d = max(self.env, default=0) + 1
+            self.env[d] = dict(fid=self.newf(("tag",)), kwargs=[("option", bk, None, None)])
+            return ("dataset", d)
+        return ("value", ("j", gen.rand_scalar(rng)))
+
+    def mapped(self, k, vals, bkeys):
+        """(expression branching on Option(k), kind): vals[i] selects a branch reading bkeys[i]"""
+        rng = self.rng
+        disp = ("option", k, None, None)
+        table = [(("j", v), self.branch(bk, k)) for v, bk in zip(vals, bkeys)]
+        dflt_key = rng.choice(self.BRANCH)
+        dflt = self.branch(dflt_key, k) if rng.random() < 0.5 else None
+        kind = rng.choice(["switch", "switch", "overload", "overload", "bind", "case", "templ"])
+        if kind == "switch":
+            return ("switch", disp, table, dflt), kind
+        if kind == "bind":
+            return ("bind", disp, table, dflt), kind
+        if kind == "case":
+            cases = [(("fnvalue", self.newf(("eq", v))), b) for v, b in table]
+            return ("case", disp, cases, dflt), kind
+        if kind == "overload":
+            d = max(self.env, default=0) + 1
+            self.env[d] = dict(fid=self.newf(("tag",)), kwargs=[("option", dflt_key, None, None)], dispatch=disp,
+                               overloads=table)
+            if dflt is None and rng.random() < 0.5:
+                self.env[d]["abstract"] = True
+            return ("dataset", d), kind
+        return disp, kind                     # the element values themselves are templates over the branch keys
+
+    def scenario_branchmap(self, n_ops=10):
+        rng = self.rng
+        k = rng.choice(self.MAPPED)
+        nb = rng.randint(2, 3)
+        vals = rng.sample(self.VALS, nb)
+        bkeys = rng.sample(self.BRANCH, nb) if rng.random() < 0.8 else [rng.choice(self.BRANCH) for _ in range(nb)]
+        e, kind = self.mapped(k, vals, bkeys)
+        elems = list(vals)
+        if kind == "templ":
+            elems = [S(("ref", bk)) if rng.random() < 0.7 else S(("lit", "q"), ("ref", bk)) for bk in bkeys]
+        if rng.random() < 0.3:
+            elems.append(rng.choice(self.VALS))             # a repeated element, or one outside the table
+        if rng.random() < 0.5:
+            rng.shuffle(elems)
+        base = {}
+        from_option = kind != "templ" and rng.random() < 0.45     # templated strings inside a list of the options: zone of D1
+        if from_option:
+            its = [(k, ("option", gen.K(gen.LST), ("value", ("j", elems)) if rng.random() < 0.3 else None, None))]
+            base[gen.LST] = list(elems)
+        else:
+            its = [(k, ("value", ("j", elems)))]
+        if rng.random() < 0.3:                              # a second iterated key: the product has more combinations
+            k2 = rng.choice([x for x in self.BRANCH + [gen.K(gen.FLAT[2])] if x != k])
+            its.append((k2, ("value", ("j", [gen.rand_scalar(rng) for _ in range(rng.randint(1, 2))]))))
+            if rng.random() < 0.5:
+                its.reverse()
+        m = ("map", e, its)
+        w = rng.random()
+        if w < 0.30:
+            root = ("tolist", m)
+        elif w < 0.45:
+            root = m
+        elif w < 0.60:
+            root = ("call", self.newf(("tag",)), [("tolist", m)])
+        elif w < 0.78:                                       # a dataset built on the Map
+            d = max(self.env, default=0) + 1
+            self.env[d] = dict(fid=self.newf(("tag",)), kwargs=[("tolist", m)])
+            root = ("dataset", d)
+        elif w < 0.90:
+            c = self.next_c
+            self.next_c += 1
+            root = ("cached", c, ("tolist", m))
+        else:
+            root = ("with", rng.random() < 0.5, gen.rand_preset(rng), ("tolist", m))
+        # dictionaries: every key some branch reads is present in the base one
+        used = sorted({t[1] for t in cp.sub_exprs([e, self.env]) if t and t[0] == "option"} |
+                      {t[1] for x in cp.sub_exprs([e, self.env]) if x and x[0] == "template" for t in x[1] if t[0] == "ref"} |
+                      set(bkeys), key=core.key_order)
+        used = [bk for bk in used if bk != gen.K(gen.LST)]
+        for bk in used:
+            if bk != k or rng.random() < 0.5:
+                base = put_path(base, bk, rng.choice([0, 1, 2, 5, lit("a"), lit("b"), True]))
+        if rng.random() < 0.5:
+            base[gen.FLAT[2]] = base.get(gen.FLAT[2], gen.rand_scalar(rng))
+        pool = [base]
+        for bk in used:
+            pool.append(put_path(base, bk, rng.choice([7, lit("z")])))
+            pool.append(del_path(base, bk))
+        if from_option:
+            pool.append(put_path(base, gen.K(gen.LST), list(reversed(elems))))
+            pool.append(put_path(base, gen.K(gen.LST), elems[:1]))
+        pool.append({})
+        items = list(base.items())
+        rng.shuffle(items)
+        pool.append(dict(items))
+        ops = [("keys", 0, False, False, base), ("evaluate", 0, False, False, base)]
+        methods = ("keys", "keys", "evaluate", "evaluate", "validate", "explain")
+        for _ in range(n_ops - 2):
+            ops.append((rng.choice(methods), 0, False, False, rng.choice(pool)))
+        return dict(ftable=dict(self.ftable), env=dict(self.env), exprs=[root], ops=ops)
+
+
+def put_path(o, key, val):
+    """copy of o with val stored under a name-only dotted key (sections created as needed)"""
+    out = dict(o)
+    cur = out
+    for s in key[:-1]:
+        cur[s[1]] = dict(cur[s[1]]) if isinstance(cur.get(s[1]), dict) else {}
+        cur = cur[s[1]]
+    cur[key[-1][1]] = val
+    return out
+
+
+def del_path(o, key):
+    """copy of o without the value under a name-only dotted key"""
+    out = dict(o)
+    cur = out
+    for s in key[:-1]:
+        if not isinstance(cur.get(s[1]), dict):
+            return out
+        cur[s[1]] = dict(cur[s[1]])
+        cur = cur[s[1]]
+    cur.pop(key[-1][1], None)
+    return out
+
+
+# ---- dataset classes (labrea.datasetclass): ORACLE ONLY, the Coq core model has no dataset classes -------
+#
+# A class scenario is an ordinary scenario whose expressions are the members, plus `cls_names` (the
+# member names, aligned with `exprs`), `cls_base` (how many leading members live on a plain base class)
+# and `cls_plain` (members declared without an annotation).  The evaluatable under test is the class:
+# keys / fingerprint of the class, outcome = the member values of the instance it evaluates to.
+# Member expressions stay outside the zones of the recorded findings (no conditionals, coalesce,
+# domains, effects; only leaf keys are read, so no container value with a templated string is returned).
+
+MEMBER_NAMES = ["a", "b", "c", "d", "_p", "_q", "_r_s", "p_", "x__y", "__h", "A", "_"]
+
+
+class ClassGen(gen.Gen):
+    LEAVES = [gen.K(10), gen.K(11), gen.K(12), gen.K(gen.SEC, gen.SX), gen.K(gen.SEC, gen.SY), gen.K(*gen.DEEP),
+              gen.K(gen.LST, "i0")]
+
+    def leaf_option(self, depth=0):
+        rng = self.rng
+        r = rng.random()
+        dflt = None
+        if r < 0.25:
+            dflt = ("value", ("j", gen.rand_scalar(rng)))
+        elif r < 0.35 and depth < 2:
+            dflt = self.leaf_option(depth + 1)
+        return ("option", rng.choice(self.LEAVES), dflt, None)
+
+    def member(self, depth=2):
+        rng = self.rng
+        r = rng.random()
+        if depth <= 0 or r < 0.40:
+            return self.leaf_option()
+        if r < 0.55:
+            return ("call", self.newf(("tag",)), [self.member(depth - 1) for _ in range(rng.randint(1, 2))])
+        if r < 0.65:
+            d = max(self.env, default=0) + 1
+            self.env[d] = dict(fid=self.newf(("tag",)), kwargs=[self.leaf_option() for _ in range(rng.randint(0, 2))])
+            return ("dataset", d)
+        if r < 0.75:
+            return ("with", rng.random() < 0.5, gen.rand_preset(rng), self.member(depth - 1))
+        if r < 0.83:
+            return ("template", (("lit", "p"), ("ref", rng.choice(self.LEAVES[:6]))), [])
+        if r < 0.90:
+            return ("list", [self.member(depth - 1) for _ in range(rng.randint(0, 2))])
+        return ("value", ("j", gen.rand_scalar(rng)))
+
+    def scenario_class(self, n_ops=8):
+        rng = self.rng
+        n = rng.randint(2, 5)
+        names = rng.sample(MEMBER_NAMES, n)
+        exprs = [self.member() for _ in names]
+        # a dictionary holding every leaf key, its single-key neighbours, and the usual adversarial pool
+        full = {gen.LST: [gen.rand_scalar(rng), gen.rand_scalar(rng)]}
+        for lk in self.LEAVES[:6]:
+            full = put_path(full, lk, rng.choice([0, 1, 2, 5, lit("a"), lit("b"), True, None]))
+        pool = [full]
+        for lk in rng.sample(self.LEAVES[:6], 3):
+            pool.append(put_path(full, lk, rng.choice([7, lit("z")])))
+            pool.append(del_path(full, lk))
+        pool += self.dict_pool()
+        ops = [("keys", 0, False, False, full)]
+        ops += [(rng.choice(("keys", "evaluate")), 0, False, False, dict(rng.choice(pool))) for _ in range(n_ops - 1)]
+        return dict(ftable=dict(self.ftable), env=dict(self.env), exprs=exprs, ops=ops, cls_names=names,
+                    cls_base=rng.choice([0, 0, 1]), cls_plain=[nm for nm in names if rng.random() < 0.2])
+
+
+def build_class(scn):
+    """the dataset class of a class scenario, from freshly built member evaluatables"""
+    import labrea
+    _, objs, _, _ = core.run_impl(dict(scn, ops=[]), want_objects=True)
+    names, nb, plain = scn["cls_names"], scn.get("cls_base", 0), scn.get("cls_plain", [])
+    members = list(zip(names, objs))
+
+    def body(ms):
+        ns = {nm: ob for nm, ob in ms}
+        ns["__annotations__"] = {nm: object for nm, _ in ms if nm not in plain}
+        return ns
+    bases = (type("Base", (), body(members[:nb])),) if nb else ()
+    return labrea.datasetclass(type("Record", bases, body(members[nb:])))
+
+
+def class_eval(scn, o, method):
+    """(observation line, raw) in the format of core.run_impl for keys / evaluate of the class"""
+    import labrea.cache
+    from labrea.types import Evaluatable
+    cls = build_class(scn)
+    po = core.py_json(o)
+    raw = None
+    try:
+        with labrea.cache.disabled():
+            if method == "keys":
+                r = "ok:" + core.show_keys(cls.keys(po))
+            else:
+                inst = cls.evaluate(po)
+                vals = [getattr(inst, nm) for nm in scn["cls_names"]]
+                raw = [("<member not evaluated>" if isinstance(v, Evaluatable) else core.force(v)) for v in vals]
+                r = "ok:" + core.show(raw)
+    except RecursionError:
+        r = "err:fuel:F"
+    except Exception as exc:  # noqa
+        c, ee = core.classify(exc)
+        r = f"err:{c}:{'T' if ee else 'F'}"
+    return core.canon_names(r + "|"), raw
+
+
+class ClassOracle(Oracle):
+    """the same clauses, the evaluatable being the dataset class (idx is ignored)"""
+
+    def fresh(self, idx, o, method, raw=False):
+        line, rawv = class_eval(self.scn, o, method)
+        return (line, rawv) if raw else line
+
+    def fingerprint(self, idx, o):
+        import labrea.cache
+        cls = build_class(self.scn)
+        with labrea.cache.disabled():
+            return cls.fingerprint(core.py_json(o))
+
+
+def generate_classes(ctx, n):
+    return [ClassGen(ctx.rng).scenario_class() for _ in range(n)]
+
+
+def oracle_for(scn):
+    return ClassOracle(scn) if "cls_names" in scn else Oracle(scn)
+
+
+def generate_branchmaps(ctx, n):
+    return [BranchMapGen(ctx.rng).scenario_branchmap() for _ in range(n)]
+
+
 def restrict_correspondence(ctx, items):
     """Model/Base.v restrict vs the oracle's Python restrict"""
     if not items:
@@ -304,20 +595,32 @@ def restrict_correspondence(ctx, items):
 def run(ctx):
     n = 700 if ctx.quick else 6000
     corpus = corpus_for(PID)
-    scns = [s for _, s in corpus] + generate(ctx, n)
+    branch = generate_branchmaps(ctx, 120 if ctx.quick else 1200)
+    scns = [s for _, s in corpus] + generate(ctx, n) + branch
     impls, models, mism, stats = cp.correspondence(ctx, scns, "Cases_C03")
+    n_core = len(scns)
+    # dataset classes: oracle only (their members are ordinary expressions, but the class itself is not modelled)
+    classes = generate_classes(ctx, 80 if ctx.quick else 800)
+    scns = scns + classes
+    impls = impls + [None] * len(classes)
+    models = models + [None] * len(classes)
     violations, distinct, tagged = [], set(), {}
     totals, restr, fpcases = {}, [], []
     for si, (scn, il, ml) in enumerate(zip(scns, impls, models)):
-        orc = Oracle(scn)
-        orc.run(ctx.rng)
+        orc = oracle_for(scn)
+        # directed scenarios: the base dictionary (first operation) is always examined
+        orc.run(ctx.rng, first=[(scn["ops"][0][1], scn["ops"][0][4])] if si >= n_core - len(branch) else ())   # (dataset classes too)
         for k, v in orc.checks.items():
             totals[k] = totals.get(k, 0) + v
         restr += orc.restrictions
         fpcases += [(scn, i, o, h) for i, o, h in orc.fp_cases[:1]]
         if orc.checks["present"]:
             distinct.add(lib.stable_hash(cp.dump_scn(scn)))
-        if orc.fails:
+        if orc.fails and "cls_names" in scn:      # no model, no recorded finding concerns dataset classes
+            for f in orc.fails[:3]:
+                violations.append(dict(desc="dataset class: " + f["kind"], detail={k: repr(v)[:600] for k, v in f.items() if k != "kind"},
+                                       finding=None, scenario_repr=cp.dump_scn(scn), idx=f["idx"], o_repr=repr(f["o"])))
+        elif orc.fails:
             pairs = []
             for f in orc.fails:
                 pairs.append((f["idx"], f["o"]))
@@ -371,6 +674,9 @@ def run(ctx):
         "rule": "random expression graphs x pools of adversarially perturbed dictionaries; for up to 4 (expression, dictionary) pairs per scenario on "
                 "which keys() succeeds: presence of every reported key, restrict-and-re-evaluate (outcome and keys), fingerprint equality under "
                 "never-mentioned keys / other pool dictionaries with equal reported keys+values, fingerprint inequality after changing a reported value; "
+                "plus a directed family of Maps whose mapped expression branches on the mapped key (switch / bind / case-when / overloaded dataset / "
+                "templated element values; dictionaries = single-key neighbours of one holding every branch key), and, for the oracle only, dataset "
+                "classes over zone-free member expressions (public, underscore-prefixed, inherited and unannotated members); "
                 "fingerprint bytes re-computed in fresh processes under other PYTHONHASHSEEDs; non-trivial = keys() succeeded on at least one pair; "
                 "distinct by scenario hash",
         "samples": [dict(exprs=repr(s["exprs"])[:300], first_ops=[repr(o)[:140] for o in s["ops"][:2]], observed=il[:2])
@@ -380,6 +686,7 @@ def run(ctx):
         "violations": violations,
         "known": known,
         "distribution": dict(stats, oracle_checks=totals, tagged=tagged, scenarios=len(scns), restrict_cases=n_restr,
+                             branching_map_scenarios=len(branch), dataset_class_scenarios_oracle_only=len(classes),
                              hashseed_comparisons=n_hs, hashseeds=seeds),
         "exhaustive": False,
         "assumptions": ["user code is deterministic; cyclic template references excluded; floats not generated",
@@ -412,10 +719,15 @@ def d6_raw_typeerror():
 
 def replay(ctx, payload):
     scn = cp.load_scn(payload["scenario_repr"])
+    import random
+    if "cls_names" in scn:                       # dataset class: oracle only
+        orc = ClassOracle(scn)
+        orc.run(random.Random(0), max_pairs=50)
+        return bool(orc.fails), dict(oracle_failures=[{k: repr(v)[:300] for k, v in f.items()} for f in orc.fails[:5]],
+                                     members=list(zip(scn["cls_names"], [repr(e)[:200] for e in scn["exprs"]])))
     il = core.run_impl(scn)
     ml = ctx.coq_eval("Replay_C03", cp.REQ, "", [core.coq_scenario(scn)])[0].split(" ## ")
     orc = Oracle(scn)
-    import random
     orc.run(random.Random(0), max_pairs=50)
     fails = [f for f in orc.fails if payload.get("idx") is None or f["idx"] == payload["idx"]]
     return bool(fails) or not cp.agrees(il, ml, scn), dict(oracle_failures=[{k: repr(v)[:300] for k, v in f.items()} for f in fails[:5]],
